@@ -110,10 +110,21 @@ def _revert_instances(tier):
     return out
 
 
+def solver_requires(solve_triu):
+    """The contracts of ``revert_conditional`` / ``*.revert`` are proved for the two solvers the repository passes:
+    the upper-triangular solve and the (minimum-norm) least-squares solve.  At a call site the solver argument has to
+    be one of them -- a lower-triangular solve, say, would read only the diagonal of the upper-triangular factor."""
+    import probdiffeq.backend.linalg as LA
+
+    ok = any(solve_triu is f for f in (LA.solve_triu, LA.lstsq_svd))
+    return [H.holds("solver_argument_is_the_upper_triangular_or_the_least_squares_solve", jnp.asarray(bool(ok)))]
+
+
 revert_conditional = Contract(
     name=f"{MOD}:revert_conditional",
     module=MOD,
     qualname="revert_conditional",
+    requires=lambda R_X_F=None, R_X=None, R_YX=None, *, solve_triu=None: solver_requires(solve_triu),
     ensures=_revert_ensures,
     instances=_revert_instances,
     inherits=("solve_triu#", "ghost_inverse#"),
